@@ -9,6 +9,16 @@ Open Scope Z_scope.
 
 Inductive val := VZ (z : Z) | VL (l : list val) | VE (code : Z).
 
+Fixpoint val_eqb (a b : val) : bool :=
+  match a, b with
+  | VZ x, VZ y => Z.eqb x y
+  | VE x, VE y => Z.eqb x y
+  | VL l, VL m =>
+      (fix go (l m : list val) : bool :=
+         match l, m with [], [] => true | x :: l', y :: m' => val_eqb x y && go l' m' | _, _ => false end) l m
+  | _, _ => false
+  end.
+
 (* ---- decoders (total; malformed input decodes to defaults) ---- *)
 Definition dZ (v : val) : Z := match v with VZ z => z | _ => 0 end.
 Definition dN (v : val) : nat := Z.to_nat (dZ v).
